@@ -252,6 +252,11 @@ Judge_sequential_unroll(e) ==
      \* remove_unloaded (documented: "unloaded inputs will be removed after unrolling"): no free input that nothing reads
      \cup (IF e.remove_unloaded /\ WellFormedRec(uc)
            THEN {"unloaded_input_kept_although_remove_unloaded:" \o uc.names[i] : i \in {j \in Inputs(uc) : FoSet(uc, j) = {} /\ ~uc.out[j]}}
+                \* a primary input that only fed dropped flop pins (or nothing at all) has no copies and no map entry
+                \cup {"unloaded_input_kept_although_remove_unloaded:" \o c.names[i] :
+                        i \in {j \in Inputs(c) : ~c.out[j]
+                                  /\ (\A k \in FoSet(c, j) : c.ty[k] = "bb_input" /\ PinPartApi(c.names[k]) # e.d)
+                                  /\ (HasMap(e, c.names[j]) \/ \E t \in 0..(e.n - 1) : HasName(uc, UName(c.names[j], t)))}}
            ELSE {})
      \cup (IF ~mapOK THEN {"io_map_incomplete"} ELSE
            (IF OutputNames(uc) = wantOut THEN {} ELSE {"outputs_of_unrolled_circuit"})
